@@ -119,8 +119,10 @@ def run(tier):
     sub = Report(PROP, "model_checking", tier)
     explore.run(C14AsyncSpec(), sub, tier, 4 if tier == "quick" else 5, 200000, 200 if tier == "quick" else 900)
     report.add_all(sub.violations.values())
+    app_part = run_app_part(report, tier)
     cov = report.coverage
     cov.update(cov_sync)
+    cov["asyncio_application_scripts"] = app_part
     wit = cov.get("witnesses", {})
     cov["rule"] = RULE + "; the same fork is explored for the asyncio gateway on the virtual loop (stop() awaits the save in the fake executor)"
     cov["asyncio_flavour"] = {"states": sub.coverage["states"], "transitions": sub.coverage["transitions"], "completed_depth": sub.coverage["completed_depth"], "witnesses": sub.coverage["witnesses"]}
@@ -136,10 +138,139 @@ def run(tier):
 
 
 def replay(data):
+    if data["replay"].get("kind") == "app-script":
+        viols = run_app_script(data["replay"]["fmt"], tuple(data["replay"]["script"]))
+        sigs = sorted(v.signature for v in viols)
+        print(f"application script {data['replay']['script']} ({data['replay']['fmt']}): violations {sigs}")
+        if data["signature"] in sigs:
+            print(f"VIOLATION property={PROP} replay=<replayed>")
+            return 1
+        print("did not reproduce on the current tree")
+        return 0
     cfg = data["replay"].get("cfg", {})
     if cfg.get("flavour") == "async":
         return e1check.replay_history(C14AsyncSpec(), data)
     return e1check.replay_history(C14Spec("thorough"), data)
+
+
+# -- asyncio flavour, application as ONE coroutine: which awaits yield to the loop is part of the history ---------
+
+APP_STEPS = ("startp", "rx1", "rx2", "yield", "tick")
+
+
+def app_scripts(tier):
+    """Every application coroutine body of the form: <steps> ; await stop() with steps from APP_STEPS, at most one
+    start_persistence, at most 4 (quick) / 5 (thorough) steps. 'yield' = await asyncio.sleep(0) (the loop runs what is
+    ready), 'tick' = sleep past the next periodic save; rx = a synchronous Gateway.logic call (an MQTT client callback,
+    say). Without 'yield' between two steps the loop gets no chance to run the tasks the library has created."""
+    import itertools
+
+    n = 4 if tier == "quick" else 5
+    out = []
+    for k in range(0, n + 1):
+        for seq in itertools.product(APP_STEPS, repeat=k):
+            if seq.count("startp") > 1 or seq.count("tick") > 1 or seq.count("rx1") > 1 or seq.count("rx2") > 1:
+                continue
+            if "tick" in seq and ("startp" not in seq or seq.index("tick") < seq.index("startp")):
+                continue
+            out.append(seq)
+    return out
+
+
+def run_app_script(fmt, seq):
+    """One script on a fresh virtual loop. Returns (violations, info)."""
+    import asyncio
+    import shutil
+
+    from ..canon import project_tree
+    from ..vloop import VLoop
+    from ..world import install_shims
+    from .c12 import fresh
+    from .c15 import load_copy
+
+    from mysensors.gateway_serial import AsyncSerialGateway
+
+    install_shims()
+    directory = fresh("c14-app")
+    loop = VLoop()
+    gw = AsyncSerialGateway("/dev/verif", persistence=True, persistence_file=os.path.join(directory, f"p.{fmt}"), protocol_version="2.2")
+    lines = {"rx1": "1;255;0;0;17;2.2", "rx2": "2;255;0;0;17;2.2"}
+    seen = {}
+
+    async def app():
+        for step in seq:
+            if step == "startp":
+                await gw.start_persistence()
+            elif step == "yield":
+                await asyncio.sleep(0)
+            elif step == "tick":
+                await asyncio.sleep(10.5)
+            else:
+                gw.logic(lines[step])
+        seen["before"] = project_tree(gw.sensors)
+        await gw.stop()
+
+    viols = []
+    rep = {"kind": "app-script", "check": PROP, "fmt": fmt, "script": list(seq)}
+    try:
+        task = loop.start(app())
+        guard = 0
+        while not task.done() and guard < 50:
+            guard += 1
+            if loop.executor_jobs:
+                loop.complete_executor(0)
+            elif not loop.fire_next_timer():
+                break
+        if not task.done():
+            viols.append(Violation(PROP, "async-app|stop-hangs", f"application coroutine {list(seq)} + stop() never finished", rep))
+        elif task.cancelled():
+            viols.append(Violation(PROP, "async-app|exception|CancelledError", f"application coroutine {list(seq)}: await stop() ended in CancelledError (the final save did not run)", rep))
+        elif task.exception() is not None:
+            exc = task.exception()
+            viols.append(Violation(PROP, f"async-app|exception|{type(exc).__name__}", f"application coroutine {list(seq)}: {type(exc).__name__}: {short(str(exc))}", rep))
+        else:
+            after = load_copy(directory, fmt)
+            if after != seen["before"]:
+                cls, text = diff_trees(seen["before"], after)
+                viols.append(Violation(PROP, f"async-app|stop-loses-state|{cls}", f"application coroutine {list(seq)} then stop() and a fresh load: {text}", rep))
+    finally:
+        try:
+            loop.shutdown()
+        except Exception:  # pylint: disable=broad-except
+            pass
+        shutil.rmtree(directory, ignore_errors=True)
+    return viols
+
+
+def _app_work(chunk):
+    import logging
+
+    logging.disable(logging.CRITICAL)
+    out = []
+    for fmt, seq in chunk:
+        out.extend(run_app_script(fmt, seq))
+    from ..world import cleanup_process_scratch
+
+    cleanup_process_scratch()
+    return out, len(chunk)
+
+
+def run_app_part(report, tier):
+    import multiprocessing
+
+    from ..common import NPROC
+
+    cases = [(fmt, seq) for fmt in ("json", "pickle") for seq in app_scripts(tier)]
+    chunks = [cases[i::NPROC * 2] for i in range(NPROC * 2)]
+    n = 0
+    found = []
+    with multiprocessing.get_context("fork").Pool(NPROC) as pool:
+        for viols, k in pool.imap_unordered(_app_work, [c for c in chunks if c]):
+            n += k
+            found.extend(viols)
+    found.sort(key=lambda v: (len(v.replay["script"]), v.replay["script"], v.replay["fmt"]))  # shortest script is reported
+    report.add_all(found)
+    return {"scripts": n, "rule": "the application as one coroutine on the virtual loop: every sequence of at most 4 (quick) / 5 (thorough) steps from {await start_persistence, synchronous logic(line) x2, await sleep(0), sleep past the next periodic save} followed by await stop(); executor jobs are completed as they appear; oracle: stop() returns normally and a fresh load yields the tree held before stop()"}
 
 
 # -- asyncio flavour: the same fork on the virtual loop -----------------------------------------------
